@@ -136,17 +136,29 @@ def tg_op_cases(draw):
     elif kind == "remove":
         op.update(name=draw(anyname))
     elif kind == "rename":
-        op.update(name=draw(anyname), new=draw(st.sampled_from(names + ["zz", "yy"])))
+        op.update(name=draw(anyname), new=draw(st.sampled_from(names + ["zz", "yy"])), widen_first=draw(st.integers(0, 2)) == 0)
     elif kind == "replace":
         op.update(name=draw(anyname if len(names) > 1 else st.sampled_from(names + names + ["zz"])), new=draw(st.sampled_from(names + ["zz"])),
                   span=draw(st.sampled_from([[spec["minT"], spec["maxT"]], [spec["minT"], spec["maxT"] + 1.0]])),
-                  mode=draw(st.sampled_from(["silence", "warning", "error", "error", "bogus"])))
+                  mode=draw(st.sampled_from(["silence", "warning", "error", "error", "bogus"])), widen_first=draw(st.integers(0, 2)) == 0)
     elif kind == "tier_insert":
         op.update(name=draw(st.sampled_from(names)), a=draw(pick), b=draw(pick), mode=draw(st.sampled_from(["error", "error", "replace", "merge", "bogus"])),
                   report=draw(st.sampled_from(["silence", "warning", "bogus"])))
     elif kind == "tier_delete":
         op.update(name=draw(st.sampled_from(names)), sel=draw(st.integers(0, 5)), absent=draw(st.booleans()))
     return {"tg": spec, "other": other, "op": op}
+
+
+def _widen_first(tg, op, classes):
+    """Optionally let the addressed tier grow beyond its textgrid (tier.insertEntry does not tell the textgrid) before the
+    mutator under test is called; returns the state the textgrid has to be in if that call fails."""
+    p = P()
+    if op.get("widen_first") and op["name"] in tg.tierNames:
+        t = tg.getTier(op["name"])
+        far = tg.maxTimestamp + 1.0
+        t.insertEntry((far, far + 1.0, "w") if isinstance(t, p.IntervalTier) else (far, "w"), "error", "silence")
+        classes.add("tier_grew_beyond_textgrid_first")
+    return snap_tg(tg)
 
 
 def run_tg_op(case):
@@ -214,9 +226,11 @@ def run_tg_op(case):
             elif kind == "remove":
                 tg.removeTier(op["name"])
             elif kind == "rename":
+                before = _widen_first(tg, op, classes)
                 tg.renameTier(op["name"], op["new"])
             elif kind == "replace":
                 new_tier = mk_new(op["new"], op["span"])
+                before = _widen_first(tg, op, classes)
                 tg.replaceTier(op["name"], new_tier, op["mode"])
             elif kind == "tier_insert":
                 t = tg.getTier(op["name"])
